@@ -110,6 +110,11 @@ def addr_expr(ctx, rnd, labels):
 
 def value_expr(ctx, rnd, labels):
     r = rnd.random()
+    if ctx.opts.get("impure_dot", True) and rnd.random() < 0.08:
+        # operators whose result is not linear in an address: the value must be computed anew wherever the statement is placed
+        who = ("dot",) if rnd.random() < 0.7 or not labels else ("sym", rnd.choice(labels))
+        op, k = rnd.choice([("/", 2), ("/", 3), ("%", 8), ("%", 10), (">>", 1), (">>", 3)])
+        return ("bin", op, who, apm.num(k, rnd.choice([None, "d"]) if k < 8 else "d"))
     if r < 0.4:
         return apm.num(rnd.choice([0, 1, 2, 0o377, 0o177777, 0o100000, rnd.randrange(0x10000)]), rnd.choice([None, None, "d", "x"]))
     if r < 0.6 and ctx.consts:
@@ -145,6 +150,13 @@ def gen_stmt(ctx, rnd, labels, near, depth=0):
             out.append(apm.simple(".even"))
             ctx.maybe_odd = False
 
+    if depth > 0 and rnd.random() < 0.12:
+        # word list (explicit or, when respelled, implicit) in a repeat body, with values that differ from copy to copy
+        word_aligned()
+        who = rnd.choice([("dot",), ("bin", "+", ("dot",), apm.num(2))])
+        op, k = rnd.choice([("/", 2), ("%", 8), (">>", 1), ("+", 1)])
+        out.append(rnd.choice([apm.wordlist, lambda *a: apm.data(".word", *a)])(apm.num(rnd.randrange(0x10000)), ("bin", op, who, apm.num(k)), value_expr(ctx, rnd, labels)))
+        return out
     r = rnd.random()
     if r < 0.40:
         word_aligned()
@@ -292,6 +304,11 @@ def gen_program(rnd, nfiles=None, opts=None, base=None, tries=30, charset="bk", 
             host = rnd.choice(files)
             pos = rnd.randrange(len(host.stmts) + 1)
             host.stmts[pos:pos] = [apm.simple(".even"), apm.include("inc8.mac"), apm.simple(".even")]
+            if opts.get("include_twice", True) and rnd.random() < 0.4:
+                # the same file a second time, elsewhere: every inclusion is a compilation of its own
+                host = rnd.choice(files)
+                pos = rnd.randrange(len(host.stmts) + 1)
+                host.stmts[pos:pos] = [apm.simple(".even"), apm.include("inc8.mac"), apm.simple(".even")]
         if opts.get("insert") and rnd.random() < 0.7:
             blob = bytes(rnd.randrange(256) for _ in range(rnd.randrange(0, 301)))
             if rnd.random() < 0.4:
